@@ -8,6 +8,9 @@ Abstract syntax (plain tuples, rendered by `render_*`):
   cond :  (cmp, l, r) with cmp in < <= > >= == !=  |  ("and", c...) | ("or", c...) | ("not", c)
   stmt :  ("=", name, e) | ("aug", op, name, e) | ("tup", (n1, n2), (e1, e2)) | ("if", c, body, orelse) | ("while", c, body)
           | ("for", var, (args...), body) | ("break",) | ("continue",) | ("ret", e)
+          | ("expr", e) an expression statement | ("pass",) | ("doc", text) a string statement | ("ret0",) a bare return
+          | ("raw", line) a verbatim line (probes only)
+  family X also uses the leaves ("ilit", n) / ("flit", x) (a literal of a fixed type) and ("str", text)
 
 Families
   E   return <expression tree of depth <= 2>                    (leaves a, b, one literal)
@@ -16,6 +19,12 @@ Families
   S   statement skeletons of nesting depth <= 2 over {if, if/else, while, for-range(1|2 args), break, continue, augmented and tuple
       assignment, call of g} with bodies from a small menu of simple statements
   L   the loop variable read after the loop
+  X   externals / procedures / statements (see fam_X): imported functions and procedures (EXTERNALS; compiled with
+      python_to_ir(f, imports=...) in the "tuple" and the "callable" signature form), string constants as their arguments, procedures
+      (no return annotation / `-> None`, bare `return`, falling off the end), modules whose functions call a procedure, expression
+      statements, `pass`, docstrings, mixed int/float signatures, and probes of constructs outside the subset (tag "probe")
+Programs of family X carry three more fields: "sig" (parameter types of f), "ret" ("int" | "float" | "none") and "imports"
+(None | "tuple" | "callable").
 Loops are bounded by construction: `while` loops advance their counter as the first statement of the body, and only x / y are assigned
 inside loops, so `continue` can never skip the increment in CPython.
 
@@ -48,13 +57,17 @@ def render_expr(e, ty):
         return "%s(%s)" % (e[1], ", ".join(render_expr(x, ty) for x in e[2:]))
     if e[0] == "ilit":  # an int literal even inside a float function (range arguments)
         return repr(int(e[1]))
+    if e[0] == "flit":
+        return repr(float(e[1]))
+    if e[0] == "str":
+        return repr(e[1])
     op, l, r = e
     return "%s %s %s" % (paren(l, ty), op, paren(r, ty))
 
 
 def paren(e, ty):
     s = render_expr(e, ty)
-    if isinstance(e, tuple) and e[0] not in ("call", "ilit"):
+    if isinstance(e, tuple) and e[0] not in ("call", "ilit", "flit", "str"):
         return "(" + s + ")"
     return s
 
@@ -96,13 +109,24 @@ def render_block(body, ty, ind):
             out.append(pad + k)
         elif k == "ret":
             out.append("%sreturn %s" % (pad, render_expr(s[1], ty)))
+        elif k == "ret0":
+            out.append(pad + "return")
+        elif k == "expr":
+            out.append(pad + render_expr(s[1], ty))
+        elif k == "doc":
+            out.append(pad + repr(s[1]))
+        elif k == "raw":
+            out.append(pad + s[1])
         else:
             raise ValueError(k)
     return out
 
 
-def render_func(name, params, ty, body):
-    head = "def %s(%s) -> %s:" % (name, ", ".join("%s: %s" % (p, ty) for p in params), ty)
+def render_func(name, params, ty, body, sig=None, ret="same"):
+    """sig: one type per parameter (default: ty; None = no annotation); ret: "same" (= ty) | None (no annotation) | a type name / "None"."""
+    sig = sig or [ty] * len(params)
+    ann = " -> %s" % (ty if ret == "same" else ret) if ret is not None else ""
+    head = "def %s(%s)%s:" % (name, ", ".join("%s: %s" % (p, t) if t else p for p, t in zip(params, sig)), ann)
     return "\n".join([head] + render_block(body, ty, 1)) + "\n"
 
 
@@ -405,6 +429,388 @@ def fam_L(ty):
     return out
 
 
+# ---- family X: externals / procedures / statements
+
+# The imported world: name -> (return type | None for a procedure, [parameter types]).  What the functions compute is defined by the check
+# (vf/checks/c36.py: ext_value); here only the signatures.
+EXTERNALS = {
+    "ei": ("int", ["int", "int"]),
+    "ef": ("float", ["float", "float"]),
+    "e0": ("int", []),
+    "es": ("int", ["str"]),
+    "ni": (None, ["int"]),
+    "n2": (None, ["int", "int"]),
+    "nf": (None, ["float"]),
+    "n2f": (None, ["float", "float"]),
+    "ns": (None, ["str"]),
+}
+STRINGS = ["hi", "", "\u00b7\n"]
+IMPORT_FORMS = ("tuple", "callable")
+
+
+def externals_used(src):
+    import re
+    return [n for n in EXTERNALS if re.search(r"\b%s\(" % n, src)]
+
+
+def xprog(ty, mech, body, tags=(), helpers="", sig=None, ret="same", probe=False, src=None):
+    """-> the program in every import form it needs (one program when it uses no external)."""
+    if src is None:
+        src = render_func("f", ["a", "b"], ty, body, sig, ret)
+        if "'g'" in repr(body) or "g(" in helpers:
+            helpers = helper_g(ty) + "\n" + helpers
+        src = helpers + src
+    feat = (mech,) + tuple(tags) + (("probe",) if probe else ())
+    rt = ty if ret == "same" else ("none" if ret in (None, "None") else ret)
+    base = {"src": src, "ty": ty, "fam": "X", "feat": feat, "sig": tuple(sig or (ty, ty)), "ret": rt}
+    if not externals_used(src):
+        return [dict(base, imports=None)]
+    return [dict(base, imports=form) for form in IMPORT_FORMS]
+
+
+def call(name, *args):
+    return ("call", name) + args
+
+
+def fam_X(ty, thorough):
+    """Externals, procedures and statements, for functions over one numeric type.
+
+    EF / NP1 / NP2: the imported function and the one- and two-argument imported procedures of that type (int: ei, ni, n2; float: ef, nf, n2f)
+      a  call sites: EF on every ordered pair of leaves {a, b, 3} (quick: 5 pairs) in every context {returned, left operand, right
+         operand, assigned, augmented-assigned, compared, argument of g (1st, 2nd), discarded}; two calls in one expression (evaluation
+         order); nested calls; the zero-argument e0; string arguments (es, ns) for every string of STRINGS; procedures NP1 / NP2 / ns as
+         statements on every leaf / pair, with expression, external-call and internal-call arguments
+      b  positions: every effect statement of a menu at every position of the skeletons {sequence of two (all ordered pairs), if, if/else,
+         while, for-range(1|2 args), each loop with break after / continue before / conditional break} (thorough: + loops nested in loops/ifs)
+      c  procedures as entry point: header {no annotation, -> None} x body menu {pass, docstring, call, call + bare return, early bare return
+         in if, return in both branches, return inside while / for, dead code after return}
+      d  internal procedures: procedure menu {one call, branch + early return, recursive, -> None twin, calls function g, chain f -> qr -> pr}
+         x caller menu {one call, two calls with swapped arguments, call in for loop, call in if/else, caller itself a procedure}
+      e  statements: every statement of {pass, docstring, name, constant, binop, call of g with result discarded} at every position of
+         {first, between, inside if, inside else, inside while, inside for, last before return}
+      f  first assignment of a local inside a compound statement: {both branches of if/else (plain, nested, tuple), the branch that does not
+         return, used only inside the branch / loop body that assigns it, body of a for over a non-empty constant range, loop variable of loops
+         in both branches}
+    """
+    EF, NP1, NP2 = ("ei", "ni", "n2") if ty == "int" else ("ef", "nf", "n2f")
+    out = []
+    leaves = ["a", "b", 3]
+    pairs = [(l, r) for l in leaves for r in leaves] if thorough else [("a", "b"), ("b", "a"), ("a", 3), (3, "b"), ("a", "a")]
+
+    def add(mech, body, tags=(), **kw):
+        out.extend(xprog(ty, mech, body, tags, **kw))
+
+    # ---- a: call sites
+    for l, r in pairs:
+        e = call(EF, l, r)
+        add("extcall-function", [("ret", e)], ["returned"])
+        add("extcall-function", [("ret", ("-", e, "a"))], ["operand"])
+        add("extcall-function", [("ret", ("-", "b", e))], ["operand"])
+        add("extcall-function", [("=", "x", e), ("ret", "x")], ["assigned"])
+        add("extcall-function", [("=", "x", "a"), ("aug", "-", "x", e), ("ret", "x")], ["aug-assigned"])
+        add("extcall-function", [("if", ("<", e, "b"), [("ret", 1)], []), ("ret", 0)], ["compared"])
+        add("extcall-function", [("ret", call("g", e, "b"))], ["argument"])
+        add("extcall-function", [("ret", call("g", "a", e))], ["argument"])
+        add("extcall-function", [("expr", e), ("ret", "a")], ["discarded"])
+        add("extcall-procedure", [("expr", call(NP2, l, r)), ("ret", "a")], ["statement"])
+    for l in leaves:
+        add("extcall-procedure", [("expr", call(NP1, l)), ("ret", "b")], ["statement"])
+    two = pairs[:4]
+    for p1 in two:
+        for p2 in two:
+            add("extcall-function", [("ret", ("-", call(EF, *p1), call(EF, *p2)))], ["two-calls"])
+    for l, r in two:
+        add("extcall-function", [("ret", call(EF, call(EF, l, r), "b"))], ["nested"])
+        add("extcall-function", [("ret", call(EF, "a", call(EF, l, r)))], ["nested"])
+        add("extcall-function", [("ret", call("g", call(EF, l, r), call(EF, r, l)))], ["nested"])
+        add("extcall-procedure", [("expr", call(NP2, call(EF, l, r), "b")), ("ret", "a")], ["nested"])
+        add("extcall-procedure", [("expr", call(NP1, call("g", l, r))), ("ret", "a")], ["internal-call-argument"])
+        add("extcall-procedure", [("expr", call(NP2, ("-", l, r), ("*", l, r))), ("ret", "a")], ["expression-argument"])
+        add("extcall-procedure", [("expr", call(NP2, call(EF, l, r), call(EF, r, l))), ("ret", "a")], ["nested"])
+    if ty == "int":
+        add("extcall-function", [("ret", call("e0"))], ["no-arguments"])
+        add("extcall-function", [("ret", ("-", call("e0"), "a"))], ["no-arguments"])
+        add("extcall-function", [("ret", call("ei", call("e0"), call("e0")))], ["no-arguments", "nested"])
+        add("extcall-function", [("expr", call("e0")), ("expr", call("e0")), ("ret", "b")], ["no-arguments", "discarded"])
+        for s in STRINGS:
+            add("extcall-string", [("ret", call("es", ("str", s)))], ["returned"])
+            add("extcall-string", [("expr", call("ns", ("str", s))), ("ret", "a")], ["statement"])
+            add("extcall-string", [("=", "x", call("es", ("str", s))), ("expr", call("ns", ("str", s))), ("ret", ("+", "x", "b"))], ["assigned"])
+        add("extcall-string", [("ret", ("-", call("es", ("str", "hi")), call("es", ("str", ""))))], ["two-calls"])
+        add("extcall-string", [("expr", call("ns", ("str", "hi"))), ("expr", call("ns", ("str", "hi"))), ("expr", call("ns", ("str", ""))), ("ret", "a")],
+            ["same-literal-twice"])
+        add("extcall-string", [("for", "i", ("a",), [("expr", call("ns", ("str", "hi")))]), ("ret", "a")], ["in-loop"])
+        add("extcall-string", [("if", ("<", "a", "b"), [("expr", call("ns", ("str", "hi")))], [("expr", call("ns", ("str", STRINGS[2])))]), ("ret", "a")], ["in-if"])
+
+    # ---- b: positions of effect statements
+    menu = [("expr", call(NP1, "x")), ("expr", call(NP2, "a", "x")), ("=", "x", call(EF, "x", "b")), ("expr", call(EF, "a", "b")),
+            ("aug", "+", "x", call(EF, "a", "x"))]
+    if ty == "int":
+        menu.append(("expr", call("ns", ("str", "hi"))))
+    if thorough:
+        menu += [("expr", call(NP1, call(EF, "x", "a"))), ("=", "x", call("g", call(EF, "a", "b"), "x"))]
+    tail = [("expr", call(NP1, "x")), ("ret", "x")]
+    conds = cond_menu(ty, thorough)
+
+    def pos(mech, stmts, tags):
+        add(mech, [("=", "x", 0)] + stmts + tail, tags)
+
+    for s1 in menu:
+        for s2 in menu:
+            pos("effects-sequence", [s1, s2], ["sequence"])
+    alt = ("expr", call(NP2, "x", "b"))
+    for c in conds:
+        for s in menu:
+            pos("effects-in-if", [("if", c, [s], [])], ["if"])
+            pos("effects-in-if", [("if", c, [s], [alt])], ["if", "else"])
+            pos("effects-in-if", [("if", c, [alt], [s])], ["if", "else"])
+    for tag, pro, mk in loop_heads(ty, "i", thorough):
+        lc = cond_menu(ty, thorough, "i" if tag.startswith("for") else "x")[:4 if thorough else 2]
+        m2 = list(menu)
+        if tag.startswith("for") and ty == "int":
+            m2.insert(0, ("expr", call(NP2, "i", "x")))
+        for s in m2:
+            pos("effects-in-loop", pro + [mk([s])], [tag])
+            pos("effects-in-loop", pro + [mk([s, ("break",)])], [tag, "break"])
+            pos("effects-in-loop", pro + [mk([s, ("continue",), alt])], [tag, "continue"])
+            for c in lc:
+                pos("effects-in-loop", pro + [mk([("if", c, [("continue",)], []), s])], [tag, "if", "continue"])
+                pos("effects-in-loop", pro + [mk([("if", c, [s], [("break",)])])], [tag, "if", "else", "break"])
+                pos("effects-in-loop", pro + [mk([("if", c, [s], [alt])])], [tag, "if", "else"])
+            if thorough:
+                for tag2, pro2, mk2 in loop_heads(ty, "j", False):
+                    pos("effects-in-loop", pro + [mk(pro2 + [mk2([s])])], [tag, tag2.split("/")[0] + "-inner", "nested"])
+                    pos("effects-in-loop", pro + [mk(pro2 + [mk2([s, ("if", lc[0], [("break",)], [])]), alt])], [tag, tag2.split("/")[0] + "-inner", "nested", "inner-break"])
+    if thorough:
+        for c in conds[:3]:
+            for tag, pro, mk in loop_heads(ty, "i", False):
+                for s in menu:
+                    pos("effects-in-if", [("if", c, pro + [mk([s])], [alt])], ["if", "else", tag + "-inner", "nested"])
+
+    # ---- c: procedures as entry point
+    n_a, n_b, n_ab = ("expr", call(NP1, "a")), ("expr", call(NP1, "b")), ("expr", call(NP2, "a", "b"))
+    c0 = ("<", "a", "b")
+    bodies = [
+        ("pass-only", [("pass",)]),
+        ("docstring-only", [("doc", "does nothing")]),
+        ("fall-off-end", [n_a]),
+        ("fall-off-end", [n_a, n_b]),
+        ("fall-off-end", [("=", "x", ("-", "a", "b")), ("expr", call(NP1, "x"))]),
+        ("bare-return-last", [n_a, ("ret0",)]),
+        ("bare-return-only", [("ret0",)]),
+        ("bare-return-in-if", [("if", c0, [("ret0",)], []), n_ab]),
+        ("bare-return-in-if", [("if", c0, [n_a, ("ret0",)], []), n_b]),
+        ("bare-return-in-if", [("if", c0, [n_a], [n_b, ("ret0",)]), n_ab]),
+        ("bare-return-both-branches", [("if", c0, [n_a, ("ret0",)], [n_b, ("ret0",)])]),
+        ("bare-return-both-branches", [("if", c0, [("ret0",)], [("ret0",)]), n_a]),
+        ("fall-off-end-after-if", [("if", c0, [n_a], [])]),
+        ("fall-off-end-after-if", [("if", c0, [n_a], [n_b])]),
+        ("dead-code-after-return", [n_a, ("ret0",), n_b]),
+        ("bare-return-in-while", [("=", "x", 0), ("while", ("<", "x", "a"), [("aug", "+", "x", 1), ("if", ("==", "x", "b"), [("ret0",)], []), ("expr", call(NP1, "x"))]), n_b]),
+        ("fall-off-end-after-while", [("=", "x", 0), ("while", ("<", "x", "a"), [("aug", "+", "x", 1), ("expr", call(NP1, "x"))])]),
+    ]
+    if ty == "int":
+        bodies += [
+            ("bare-return-in-for", [("for", "i", ("a",), [("if", ("==", "i", "b"), [("ret0",)], []), ("expr", call("ni", "i"))]), n_b]),
+            ("fall-off-end-after-for", [("for", "i", ("b", "a"), [("expr", call("n2", "i", "a"))])]),
+            ("fall-off-end-after-for", [("for", "i", ("a",), [("if", ("==", "i", "b"), [("break",)], []), ("expr", call("ni", "i"))])]),
+        ]
+    for ret in (None, "None"):
+        for tag, body in bodies:
+            add("procedure-entry", body, [tag, "annotated-None" if ret else "no-annotation"], ret=ret)
+
+    # ---- d: internal procedures
+    def proc(name, body, ret=None, params=("u", "v")):
+        return render_func(name, list(params), ty, body, ret=ret) + "\n"
+
+    n_u, n_uv = ("expr", call(NP1, "u")), ("expr", call(NP2, "u", "v"))
+    procs = [
+        ("one-call", proc("pr", [n_uv])),
+        ("one-call-annotated-None", proc("pr", [n_uv], ret="None")),
+        ("early-return", proc("pr", [("if", ("<", "u", "v"), [n_uv, ("ret0",)], []), n_u])),
+        ("locals-named-like-callers", proc("pr", [("=", "x", ("-", "u", "v")), ("=", "a", "x"), ("expr", call(NP2, "a", "x"))])),
+        ("recursive", proc("pr", [("if", ("<=", "u", 0), [("ret0",)], []), n_uv, ("expr", call("pr", ("-", "u", 1), "v"))])),
+        ("calls-function", proc("pr", [("expr", call(NP1, call("g", "u", "v")))])),
+        ("chain", proc("pr", [n_uv]) + proc("qr", [("expr", call("pr", "v", "u")), n_u, ("expr", call("pr", "u", "u"))])),
+    ]
+    for ptag, helpers in procs:
+        inner = "qr" if ptag == "chain" else "pr"
+        k = lambda *args: ("expr", call(inner, *args))  # noqa
+        callers = [
+            ("one-call", [k("a", "b"), ("ret", "a")], "same"),
+            ("swapped-calls", [k("a", "b"), k("b", "a"), ("ret", ("-", "a", "b"))], "same"),
+            ("expression-arguments", [k(("-", "a", "b"), 3), ("ret", "b")], "same"),
+            ("call-in-if", [("=", "x", "a"), ("if", ("<", "a", "b"), [k("a", 3)], [k(3, "b"), ("=", "x", "b")]), ("ret", "x")], "same"),
+            ("call-in-while", [("=", "x", 0), ("while", ("<", "x", "a"), [("aug", "+", "x", 1), k("x", "b")]), ("ret", "x")], "same"),
+            ("caller-is-procedure", [k("a", "b"), n_b], None),
+            ("caller-is-procedure", [("if", ("<", "a", "b"), [k("b", "a"), ("ret0",)], []), k("a", "b")], None),
+        ]
+        if ty == "int":
+            callers.append(("call-in-for", [("=", "x", 0), ("for", "i", ("a",), [k("i", "b"), ("aug", "+", "x", "i")]), ("ret", "x")], "same"))
+        for ctag, body, ret in callers:
+            add("procedure-internal", body, [ptag, ctag], helpers=helpers, ret=ret)
+
+    # ---- e: plain statements
+    plain = [("pass", ("pass",)), ("docstring", ("doc", "text")), ("name", ("expr", "a")), ("constant", ("expr", 3)),
+             ("binop", ("expr", ("+", "a", "b"))), ("internal-call-discarded", ("expr", call("g", "a", "b")))]
+    if ty == "int":
+        plain.append(("string-constant", ("doc", STRINGS[2])))
+    inc = ("aug", "+", "x", "b")
+    for stag, st in plain:
+        spots = [
+            ("first", [st, ("=", "x", "a"), inc]),
+            ("between", [("=", "x", "a"), st, inc]),
+            ("last", [("=", "x", "a"), inc, st]),
+            ("in-if", [("=", "x", "a"), ("if", c0, [st], []), inc]),
+            ("only-statement-of-if", [("=", "x", "a"), ("if", c0, [st], [inc])]),
+            ("in-else", [("=", "x", "a"), ("if", c0, [inc], [st])]),
+            ("in-while", [("=", "x", 0), ("=", "y", 0), ("while", ("<", "y", "a"), [("aug", "+", "y", 1), st, inc])]),
+            ("only-statement-of-while", [("=", "x", "a"), ("while", ("<", "x", "b"), [st, ("aug", "+", "x", 1)])]),
+        ]
+        if ty == "int":
+            spots.append(("only-statement-of-for", [("=", "x", "a"), ("for", "i", ("b",), [st]), inc]))
+            spots.append(("in-for", [("=", "x", "a"), ("for", "i", ("b",), [st, inc, st])]))
+        for sp, body in spots:
+            add("statement-" + stag, body + [("ret", "x")], [sp])
+
+    # ---- f: the first assignment of a variable sits inside a compound statement (CPython: defined on every path that is taken)
+    first = [
+        ("both-branches", [("if", c0, [("=", "x", "a")], [("=", "x", "b")]), ("ret", "x")]),
+        ("both-branches", [("if", c0, [("=", "x", "a")], [("=", "x", ("-", "b", "a"))]), ("aug", "+", "x", 1), ("ret", "x")]),
+        ("both-branches-nested", [("if", c0, [("if", ("<", "a", 3), [("=", "x", 1)], [("=", "x", 3)])], [("=", "x", "b")]), ("ret", "x")]),
+        ("both-branches-tuple", [("if", c0, [("tup", ("x", "y"), ("a", "b"))], [("tup", ("x", "y"), ("b", "a"))]), ("ret", ("-", "x", "y"))]),
+        ("branch-that-returns-otherwise", [("if", c0, [("ret", "a")], [("=", "x", "b")]), ("ret", "x")]),
+        ("used-only-inside", [("=", "y", "a"), ("if", c0, [("=", "x", "b"), ("aug", "+", "y", "x")], []), ("ret", "y")]),
+        ("used-only-inside-twice", [("=", "y", "a"), ("if", c0, [("=", "x", "b"), ("aug", "+", "y", "x")], []),
+                                    ("if", (">", "a", "b"), [("=", "x", 3), ("aug", "-", "y", "x")], []), ("ret", "y")]),
+        ("while-body-used-inside", [("=", "y", 0), ("while", ("<", "y", "a"), [("aug", "+", "y", 1), ("=", "x", ("*", "y", 2)), ("aug", "+", "y", "x")]), ("ret", ("-", "y", "b"))]),
+    ]
+    if ty == "int":
+        first += [
+            ("for-body", [("for", "i", (3,), [("=", "x", ("+", "i", "a"))]), ("ret", "x")]),
+            ("for-body-used-inside", [("=", "y", "b"), ("for", "i", ("a",), [("=", "x", ("*", "i", "b")), ("aug", "+", "y", "x")]), ("ret", "y")]),
+            ("loop-variable-in-branch", [("=", "y", 0), ("if", c0, [("for", "i", ("b",), [("aug", "+", "y", "i")])], [("for", "i", ("a",), [("aug", "-", "y", "i")])]), ("ret", "y")]),
+        ]
+    else:
+        first += [("for-body", [("for", "i", (("ilit", 3),), [("=", "x", ("+", "x0", "a")), ("=", "x0", "x")]), ("ret", "x")])]
+        first[-1] = ("for-body", [("=", "x0", "b")] + first[-1][1])
+    for ftag, body in first:
+        add("first-assignment-in-compound", body, [ftag])
+    return out
+
+
+def fam_X_types(thorough):
+    """Mixed int / float programs and probes of constructs outside the subset (each called on the same 64 vectors, converted per parameter type).
+
+      t  every signature (ta, tb) -> tr over {int, float}^3 x body menu {return a, return b, return a OP b, compare a with b, literal of the other
+         type, float value passed on to externals/internal functions of matching type}: the mixed ones must be diagnosed ('Type mismatch') or agree
+      p  probes: one program per diagnostic of the front end and per construct known to lie outside the subset
+    """
+    out = []
+    types = ("int", "float")
+    for ta in types:
+        for tb in types:
+            for tr in types:
+                def add(ok, mech, body, tags=(), **kw):
+                    # ok: the program respects its own annotations (then it belongs to the subset; otherwise it is a probe)
+                    out.extend(xprog(tr, mech, body, tags, sig=(ta, tb), ret=tr, probe=not ok, **kw))
+                I, F = "int", "float"
+                one = ("ilit", 1) if tr == I else ("flit", 1.0)
+                zero = ("ilit", 0) if tr == I else ("flit", 0.0)
+                same = ta == tb == tr
+                add(ta == tr, "types-return-parameter", [("ret", "a")], ["a"])
+                add(tb == tr, "types-return-parameter", [("ret", "b")], ["b"])
+                for op in ("+", "*") + (("-",) if thorough else ()):
+                    add(same, "types-binop", [("ret", (op, "a", "b"))], [OPNAME[op]])
+                add(ta == tb, "types-compare", [("if", ("<", "a", "b"), [("ret", one)], []), ("ret", zero)], ["lt"])
+                add(ta == I, "types-compare", [("if", ("==", "a", ("ilit", 1)), [("ret", one)], []), ("ret", zero)], ["int-literal"])
+                add(tb == F, "types-compare", [("if", ("==", "b", ("flit", 1.0)), [("ret", one)], []), ("ret", zero)], ["float-literal"])
+                add(ta == tr == I, "types-binop", [("ret", ("+", "a", ("ilit", 1)))], ["int-literal"])
+                add(tb == tr == F, "types-binop", [("ret", ("+", "b", ("flit", 0.5)))], ["float-literal"])
+                add(same, "types-assign", [("=", "x", "a"), ("=", "x", "b"), ("ret", "x")], ["variable-retyped"])
+                add(same, "types-assign", [("=", "x", "a"), ("aug", "+", "x", "b"), ("ret", "x")], ["aug-assign"])
+                add(same, "types-assign", [("tup", ("x", "y"), ("a", "b")), ("tup", ("x", "y"), ("y", "x")), ("ret", "x")], ["tuple-swap"])
+                add(ta == I and tb == F, "types-call", [("expr", call("ni", "a")), ("expr", call("nf", "b")), ("ret", one)], ["external-procedures"])
+                add(ta == tb == I, "types-call", [("expr", call("n2", "a", "b")), ("ret", one)], ["external-procedures"])
+                add(ta == tb == F, "types-call", [("expr", call("n2f", "a", "b")), ("ret", one)], ["external-procedures"])
+                add(same and tr == I, "types-call", [("ret", call("ei", "a", "b"))], ["external-function"])
+                add(same and tr == F, "types-call", [("ret", call("ef", "a", "b"))], ["external-function"])
+                hi = render_func("hi", ["u", "v"], I, [("ret", ("-", "u", "v"))]) + "\n"
+                hf = render_func("hf", ["u", "v"], F, [("ret", ("-", "u", "v"))]) + "\n"
+                hm = render_func("hm", ["u", "v"], F, [("ret", "v")], sig=[I, F]) + "\n"
+                add(same and tr == I, "types-call", [("ret", call("hi", "a", "b"))], ["internal-function"], helpers=hi)
+                add(same and tr == F, "types-call", [("ret", call("hf", "a", "b"))], ["internal-function"], helpers=hf)
+                add((ta, tb, tr) == (I, F, F), "types-call", [("ret", call("hm", "a", "b"))], ["internal-function", "mixed-parameters"], helpers=hm)
+                add((ta, tb, tr) == (F, I, F), "types-call", [("ret", call("hm", "b", "a"))], ["internal-function", "mixed-parameters"], helpers=hm)
+    # well-typed mixed signatures: values of both types live side by side
+    for ta, tb in (("int", "float"), ("float", "int")):
+        i, f = ("a", "b") if ta == "int" else ("b", "a")
+        for tr, body, tags in [
+            ("float", [("=", "x", f), ("for", "k", (i,), [("aug", "+", "x", ("flit", 0.5))]), ("ret", "x")], ["int-bound-float-body"]),
+            ("int", [("=", "x", 0), ("while", ("<", ("*", f, ("flit", 2.0)), ("flit", 3.0)), [("aug", "+", "x", i), ("aug", "+", f, ("flit", 1.0))]), ("ret", "x")], ["float-condition-int-body"]),
+            ("float", [("expr", call("ni", i)), ("expr", call("nf", f)), ("ret", call("ef", f, ("flit", 2.0)))], ["externals-of-both-types"]),
+            ("int", [("expr", call("nf", call("ef", f, f))), ("ret", call("ei", i, ("ilit", 2)))], ["externals-of-both-types"]),
+            ("int", [("if", ("<", f, ("flit", 0.5)), [("ret", i)], []), ("ret", ("ilit", 3))], ["float-compare-int-result"]),
+            ("none", [("expr", call("ni", i)), ("if", ("<", f, ("flit", 0.5)), [("ret0",)], []), ("expr", call("nf", f))], ["procedure"]),
+        ]:
+            out.extend(xprog("int" if tr == "none" else tr, "types-mixed-signature", body, tags, sig=(ta, tb), ret=None if tr == "none" else tr))
+
+    # ---- p: probes
+    def probe(mech, src, tags=(), ty="int", sig=("int", "int"), ret="same"):
+        out.extend(xprog(ty, "probe-" + mech, None, tags, sig=sig, ret=ret, probe=True, src=src))
+
+    H = "def f(a: int, b: int) -> int:\n"
+    probe("function-falls-off-end", H + "    if a < b:\n        return 1\n", ["empty-last-block"])
+    probe("function-falls-off-end", H + "    if a < b:\n        return 1\n    x = 0\n", ["non-empty-last-block"])
+    probe("function-falls-off-end", H + "    if a < b:\n        return 1\n    else:\n        return 0\n", ["all-paths-return"])
+    probe("function-falls-off-end", H + "    while a < b:\n        return 1\n    return 0\n", ["return-in-while"])
+    probe("function-falls-off-end", H + "    x = 0\n", ["no-return"])
+    probe("bare-return-in-function", H + "    if a < b:\n        return\n    return a\n")
+    probe("value-returned-from-procedure", "def f(a: int, b: int):\n    ni(a)\n    return 3\n", ret=None)
+    probe("value-returned-from-procedure", "def f(a: int, b: int) -> None:\n    return a\n", ret=None)
+    probe("procedure-result-used", "def pr(u: int, v: int):\n    ni(u)\n\n" + H + "    x = pr(a, b)\n    return a\n", ["assigned"])
+    probe("procedure-result-used", H + "    x = ni(a)\n    return a\n", ["assigned", "external"])
+    probe("procedure-result-used", H + "    return ei(a, ni(b))\n", ["argument", "external"])
+    probe("forward-call", H + "    return h(a, b)\n\ndef h(u: int, v: int) -> int:\n    return u - v\n")
+    probe("forward-call", "def f(a: int, b: int):\n    h(a, b)\n\ndef h(u: int, v: int):\n    n2(u, v)\n", ["procedure"], ret=None)
+    probe("unknown-function", H + "    return abs(a)\n")
+    probe("wrong-argument-count", H + "    ni(a, b)\n    return a\n")
+    probe("wrong-argument-count", H + "    return ei(a)\n")
+    probe("wrong-argument-count", helper_g("int") + "\n" + H + "    return g(a)\n", ["internal"])
+    probe("unannotated-parameter", "def f(a, b: int) -> int:\n    return b\n")
+    probe("unhandled-type", "def f(a: bool, b: int) -> int:\n    return b\n")
+    probe("unhandled-type", "def f(a: int, b: int) -> bool:\n    return b\n", ["return"])
+    probe("str-typed-function", "def h(u: str) -> int:\n    return es(u)\n\n" + H + "    return h('hi') - a\n")
+    probe("str-typed-function", "def h(u: int) -> str:\n    return 'hi'\n\n" + H + "    return es(h(a))\n", ["returns-str"])
+    probe("str-variable", H + "    s = 'hi'\n    ns(s)\n    return es(s)\n")
+    probe("str-compare", H + "    if 'hi' == 'hi':\n        return 1\n    return 0\n")
+    probe("module-level-statement", "X = 3\n\n" + H + "    return b\n")
+    probe("module-level-statement", "'''module docstring'''\n\n" + H + "    return b\n", ["docstring"])
+    probe("module-level-statement", "import math\n\n" + H + "    return b\n", ["import"])
+    probe("while-else", H + "    x = 0\n    while x < a:\n        x += 1\n    else:\n        x += b\n    return x\n")
+    probe("for-else", H + "    x = 0\n    for i in range(a):\n        x += 1\n    else:\n        x += b\n    return x\n")
+    probe("for-over-non-range", H + "    x = 0\n    for i in (1, 2):\n        x += i\n    return x\n", ["tuple"])
+    probe("for-over-non-range", H + "    x = 0\n    for i in reversed(range(a)):\n        x += i\n    return x\n", ["call"])
+    probe("range-three-arguments", H + "    x = 0\n    for i in range(0, a, 2):\n        x += i\n    return x\n")
+    probe("range-no-arguments", H + "    x = 0\n    for i in range():\n        x += i\n    return x\n")
+    probe("multiple-assignment-targets", H + "    x = y = a\n    return x + y\n")
+    probe("tuple-assignment-shapes", H + "    x, y = ei(a, b), b\n    return x - y\n", ["call-element"])
+    probe("tuple-assignment-shapes", H + "    x, y, z = a, b, 3\n    return x - y - z\n", ["three"])
+    probe("undefined-variable", H + "    x += a\n    return x\n", ["aug-assign"])
+    probe("undefined-variable", H + "    return x\n", ["read"])
+    probe("undefined-variable", H + "    if a < b:\n        x = 1\n    return x\n", ["assigned-on-one-path"])
+    probe("chained-comparison", H + "    if a < b < 3:\n        return 1\n    return 0\n")
+    probe("truth-value-of-number", H + "    if a:\n        return 1\n    return 0\n")
+    probe("truth-value-of-number", H + "    while ei(a, b):\n        return 1\n    return 0\n", ["call"])
+    probe("unary-minus", H + "    ni(-a)\n    return -b\n")
+    probe("conditional-expression", H + "    return a if a < b else b\n")
+    probe("keyword-argument", H + "    return ei(a, q=b)\n")
+    probe("default-argument", "def f(a: int, b: int = 3) -> int:\n    return a - b\n")
+    probe("nested-function", H + "    def h(u: int) -> int:\n        return u\n    return h(a)\n")
+    probe("global-statement", H + "    global X\n    return a\n")
+    return out
+
+
 def programs(tier):
     thorough = tier != "quick"
     out = []
@@ -414,12 +820,16 @@ def programs(tier):
         out += fam_C(ty, thorough)
         out += fam_L(ty)
         out += fam_S(ty, thorough)
+    for ty in ("int", "float"):
+        out += fam_X(ty, thorough)
+    out += fam_X_types(thorough)
     # simplest first: by source length within (family order) -- families are already in increasing complexity
     seen = set()
     uniq = []
     for p in out:
-        if p["src"] in seen:
+        k = (p["src"], p.get("imports"))
+        if k in seen:
             continue
-        seen.add(p["src"])
+        seen.add(k)
         uniq.append(p)
     return uniq
